@@ -3,6 +3,8 @@
    simulated tag (sim/simt3t.py) or against nfcpy's own Type3TagEmulation (loop-back), optionally
    interrupted by a power cut, followed by the view of a FRESH reader object:
 
+     Disc(ridm, sys)                tag.ndef of the reader that is going to write: the system whose IDm it
+                                    uses from now on (upper nibble of tag.idm[0]) and tag.sys
      Begin(m) | FBegin(ver, wipe)   the call (tag.ndef.octets = m / tag.format(ver, wipe))
      W(sc, bl, data, ok)            every Write Without Encryption command that reached the tag
      Cut                            the tag stopped answering
@@ -23,7 +25,7 @@
 EXTENDS T3Tag, Json, IOUtils, TLCExt
 
 VARIABLES tid, l
-tvars == <<tag, tag0, phys, pc, op, msg, ra, i, ncmd, last, tid, l>>
+tvars == <<tag, ridm, tag0, phys, pc, op, msg, ra, i, ncmd, last, tid, l>>
 
 Traces == ndJsonDeserialize(IOEnv.TRACE_FILE)
 T == Traces[tid].ev
@@ -38,15 +40,17 @@ ParseAttr(d) == [ver |-> d[1], nbr |-> d[2], nbw |-> d[3], nmaxb |-> d[4] * 256 
 TInit ==
     /\ tid \in 1..Len(Traces)
     /\ l = 1
-    /\ tag = [attr |-> ParseAttr(I0.attr), mem |-> [nb |-> I0.nb, gen |-> I0.gen, w |-> I0.blocks], oth |-> I0.oth]
+    /\ tag = [attr |-> ParseAttr(I0.attr), mem |-> [nb |-> I0.nb, gen |-> I0.gen, w |-> I0.blocks], oth |-> I0.oth,
+              card |-> [n |-> I0.card.n, pos |-> I0.card.pos]]
+    /\ ridm = I0.ract
     /\ tag0 = tag
     /\ phys = [nbr |-> I0.phys.nbr, nbw |-> I0.phys.nbw]
-    /\ pc = "idle" /\ op = "none" /\ msg = <<>> /\ ra = 0 /\ i = 0 /\ ncmd = 0 /\ last = NoCmd
+    /\ pc = "fresh" /\ op = "none" /\ msg = <<>> /\ ra = 0 /\ i = 0 /\ ncmd = 0 /\ last = NoCmd
 
 Ev == T[l]
 IsEv(a) == l <= Len(T) /\ Ev.a = a /\ l' = l + 1 /\ UNCHANGED tid
 
-EvCmd == [sc |-> Ev.sc, bl |-> Ev.bl,
+EvCmd == [sysn |-> Ev.sysn, sc |-> Ev.sc, bl |-> Ev.bl,
           dat |-> [k \in 1..Len(Ev.bl) |->
                      LET d == SubSeq(Ev.data, (k - 1) * BS + 1, k * BS)
                      IN IF Ev.sc[k] = NDEFRW /\ Ev.bl[k] = 0 THEN ParseAttr(d) ELSE d]]
@@ -62,20 +66,23 @@ ExpRes == CASE pc = "done" -> "ok"
             [] pc = "ffalse" -> "false"
             [] OTHER -> "?"
 
+GDisc   == IsEv("Disc") /\ Discover
 GBegin  == IsEv("Begin") /\ Begin(Ev.m)
 GFBegin == IsEv("FBegin") /\ FBegin(Ev.ver, Ev.wipe)
 GW      == IsEv("W") /\ (WriteStep(EvCmd) \/ FormatStep(EvCmd))
 GCut    == IsEv("Cut") /\ PowerCut
 GRet    == IsEv("Ret") /\ pc \in Terminal /\ UNCHANGED vars
-GView   == IsEv("View") /\ pc \in Terminal \cup {"idle"} /\ UNCHANGED vars
-Guarded == GBegin \/ GFBegin \/ GW \/ GCut \/ GRet \/ GView
+GView   == IsEv("View") /\ pc \in Terminal \cup {"idle", "fresh"} /\ UNCHANGED vars
+Guarded == GDisc \/ GBegin \/ GFBegin \/ GW \/ GCut \/ GRet \/ GView
 
 \* the real command is the one the modelled procedure issues, and the tag accepted it iff TagOk
 Conform ==
-    CASE Ev.a = "W" -> /\ EvCmd.sc = ExpCmd.sc /\ EvCmd.bl = ExpCmd.bl /\ EvCmd.dat = ExpCmd.dat
+    CASE Ev.a = "Disc" -> Ev.ridm = tag.card.pos /\ Ev.sys = 4860          \* 12FCh
+      [] Ev.a = "W" -> /\ EvCmd.sysn = ExpCmd.sysn /\ EvCmd.sc = ExpCmd.sc /\ EvCmd.bl = ExpCmd.bl /\ EvCmd.dat = ExpCmd.dat
                        /\ Ev.ok = TagOk(tag, phys, EvCmd)
       [] Ev.a = "Ret" -> Ev.res = ExpRes /\ (op = "write" => Ev.cap = RepCap(tag0))
       [] Ev.a = "View" -> /\ Ev.reads = CodeReadPlan(tag)
+                          /\ \A k \in 1..Len(Ev.rsys) : Ev.rsys[k] = tag.card.pos      \* every read went to the NDEF system
                           /\ Ev.k \in {"ndef", "notreadable"} => Ev.cap = RepCap(tag) /\ Ev.wr = Writeable(tag)
       [] OTHER -> TRUE
 \* the logged tag image is the state TLC rebuilt
@@ -101,13 +108,14 @@ AllInv == \A k \in DOMAIN InvNames : InvP(InvNames[k])
 Real == Guarded /\ Conform /\ PostOk /\ ViewOk /\ AllInv
 
 FailedInv == SelectSeq(InvNames, LAMBDA n : ~ENABLED (Guarded /\ InvP(n)))
-Brief(c) == [sc |-> c.sc, bl |-> c.bl]
+Brief(c) == [sysn |-> c.sysn, sc |-> c.sc, bl |-> c.bl]
 Why == IF ~ENABLED Guarded THEN <<"guard", pc>>
        ELSE IF FailedInv # <<>> THEN <<"inv", FailedInv, pc>>
        ELSE IF ~ViewOk THEN <<"view", RefRead(tag).k, Len(RefRead(tag).v), pc>>
        ELSE IF ~Conform THEN
             <<"conform", pc,
               IF Ev.a = "W" THEN <<Brief(ExpCmd), TagOk(tag, phys, EvCmd)>>
+              ELSE IF Ev.a = "Disc" THEN <<tag.card.pos>>
               ELSE IF Ev.a = "Ret" THEN <<ExpRes, RepCap(tag0)>>
               ELSE IF Ev.a = "View" THEN <<RepCap(tag), Writeable(tag), Len(CodeReadPlan(tag))>> ELSE <<>> >>
        ELSE <<"post", pc>>
